@@ -123,7 +123,7 @@ def homogeneous(expr, symbols, lam=None):
 
 
 
-LOSSY_OPS = ("IDiv", "IRem", "Cast:FloatToInt", "Idiv_euclid", "Irem_euclid")
+LOSSY_OPS = ("IDiv", "IRem", "Cast:FloatToInt", "Idiv_euclid", "Irem_euclid", "Cast:IntTrunc")
 
 
 def lossy_ops(v):
